@@ -1846,6 +1846,50 @@ class Normaliser:
             ast.fix_missing_locations(node)
             return
 
+    def completed_permutations(self, node):
+        """dest = list(AX) + [k for k in range(N) if k not in AX];  X = X.transpose(np.argsort(dest))     ->   X = np.moveaxis(X, range(len(AX)), AX)
+        (the inverse of "own axes to AX, the others fill the remaining slots in order" is exactly what moveaxis builds), and
+            if AX != tuple(range(len(AX))): X = np.moveaxis(X, range(len(AX)), AX)                      ->   the assignment alone
+        (where the test fails the move is the identity).  Any other guard is left in place."""
+        def blocks_of(n0):
+            for n in ast.walk(n0):
+                for fld in ('body', 'orelse'):
+                    b = getattr(n, fld, None)
+                    if isinstance(b, list):
+                        yield b
+        for blk in list(blocks_of(node)):
+            i = 0
+            while i + 1 < len(blk):
+                a, b = blk[i], blk[i + 1]
+                if isinstance(a, ast.Assign) and len(a.targets) == 1 and isinstance(a.targets[0], ast.Name) and isinstance(a.value, ast.BinOp) and isinstance(a.value.op, ast.Add) \
+                        and isinstance(b, ast.Assign) and len(b.targets) == 1 and isinstance(b.targets[0], ast.Name):
+                    d = a.targets[0].id
+                    L, R = a.value.left, a.value.right
+                    AX = L.args[0] if isinstance(L, ast.Call) and U(L.func) in ('list', 'tuple') and len(L.args) == 1 else None
+                    okR = isinstance(R, ast.ListComp) and len(R.generators) == 1 and isinstance(R.generators[0].target, ast.Name) and U(R.elt) == R.generators[0].target.id \
+                        and isinstance(R.generators[0].iter, ast.Call) and U(R.generators[0].iter.func) == 'range' and len(R.generators[0].iter.args) == 1 \
+                        and len(R.generators[0].ifs) == 1 and AX is not None and U(R.generators[0].ifs[0]).replace(' ', '') == '%snotin%s' % (R.generators[0].target.id, U(AX))
+                    v = b.value
+                    okT = isinstance(v, ast.Call) and isinstance(v.func, ast.Attribute) and v.func.attr == 'transpose' and len(v.args) == 1 and U(v.func.value) == b.targets[0].id \
+                        and U(v.args[0]).replace(' ', '') in ('np.argsort(%s)' % d, 'tuple(np.argsort(%s))' % d)
+                    used_later = any(isinstance(n, ast.Name) and n.id == d for st in blk[i + 2:] for n in ast.walk(st))
+                    if okR and okT and not used_later and isinstance(AX, ast.Name):
+                        newv = ast.parse('np.moveaxis(%s, range(len(%s)), %s)' % (b.targets[0].id, AX.id, AX.id), mode='eval').body
+                        nb = ast.copy_location(ast.Assign(targets=b.targets, value=newv), b)
+                        ast.fix_missing_locations(nb)
+                        blk[i:i + 2] = [nb]
+                        continue
+                i += 1
+        for blk in list(blocks_of(node)):
+            for i, st in enumerate(blk):
+                if isinstance(st, ast.If) and not st.orelse and len(st.body) == 1 and isinstance(st.body[0], ast.Assign) and isinstance(st.body[0].value, ast.Call) \
+                        and U(st.body[0].value.func) in ('np.moveaxis', 'numpy.moveaxis') and len(st.body[0].value.args) == 3 and not st.body[0].value.keywords:
+                    X, src, dst = st.body[0].value.args
+                    ax = U(dst)
+                    if U(st.body[0].targets[0]) == U(X) and U(src).replace(' ', '') == 'range(len(%s))' % ax and \
+                            U(st.test).replace(' ', '') in ('%s!=tuple(range(len(%s)))' % (ax, ax), 'tuple(%s)!=tuple(range(len(%s)))' % (ax, ax), 'list(%s)!=list(range(len(%s)))' % (ax, ax)):
+                        blk[i] = st.body[0]
+
     def inline_hoisted_tests(self, node):
         """f = (p == 'k')   (a comparison of parameters / attributes of self / constants, bound once at the top level of the function, none of
         whose names is re-bound afterwards) ... if f: ..        ->   if p == 'k': ..
@@ -2085,6 +2129,7 @@ class Normaliser:
         for n_ in ast.walk(node):
             for ch_ in ast.iter_child_nodes(n_):
                 ch_._parent = n_
+        self.completed_permutations(node)
         self.one_shot_iterators(node)
         self.fuse_pipelines(node)
         self.argmin_scans(node)
